@@ -17,7 +17,8 @@
 (* Result  R = [v, S, sig]   v: value or NoVal; sig: how evaluation ended  *)
 (*   [k|->"ok"] | [k|->"exit"] (exitWith) | [k|->"break",name] | [k|->"throw"]*)
 (*   | [k|->"casehit"] (a case matched: leave the scope executing it)      *)
-(*   | [k|->"err"]; for exit/break/throw v carries the value handed over   *)
+(*   | [k|->"err"] | [k|->"domain"] (arithmetic left the reference's number *)
+(*   domain); for exit/break/throw v carries the value handed over         *)
 (***************************************************************************)
 EXTENDS Integers, Sequences, FiniteSets, TLC
 
@@ -110,6 +111,15 @@ EvalList(es, i, S, acc) ==
     ELSE LET r == Eval(es[i], S) IN
          IF ~IsOk(r) THEN r ELSE EvalList(es, i + 1, r.S, Append(acc, r.v))
 
+\* The reference computes on integers of at most six digits: those are exact in the VM's single-precision numbers and
+\* printed digit by digit. A program whose arithmetic leaves this domain is outside the reference (signal "domain").
+NumMax == 999999
+Abs(n) == IF n < 0 THEN 0 - n ELSE n
+InDomain(op, a, b) ==
+    CASE op = "+" /\ a.t # "a" -> Abs(a.n + b.n) <= NumMax
+      [] op = "-" -> Abs(a.n - b.n) <= NumMax
+      [] op = "*" -> a.n = 0 \/ b.n = 0 \/ Abs(a.n) <= NumMax \div Abs(b.n)        \* decided without multiplying (TLC integers are 32 bit)
+      [] OTHER -> TRUE
 Arith(op, a, b) ==
     CASE op = "+" -> (IF a.t = "a" THEN ArrV(a.a \o b.a) ELSE Num(a.n + b.n))
       [] op = "-" -> Num(a.n - b.n)
@@ -133,7 +143,9 @@ Eval(e, S) ==
       [] e.k = "arr" -> EvalList(e.els, 1, S, <<>>)
       [] e.k = "bin" ->
             (LET l == Eval(e.l, S) IN IF ~IsOk(l) THEN l ELSE
-             LET r == Eval(e.r, l.S) IN IF ~IsOk(r) THEN r ELSE R(Arith(e.op, l.v, r.v), r.S, Ok))
+             LET r == Eval(e.r, l.S) IN IF ~IsOk(r) THEN r
+             ELSE IF ~InDomain(e.op, l.v, r.v) THEN R(Nil, r.S, [k |-> "domain"])
+             ELSE R(Arith(e.op, l.v, r.v), r.S, Ok))
       [] e.k = "lazy" ->      \* b && {c} / b || {c}: the block runs only when needed
             (LET l == Eval(e.l, S) IN IF ~IsOk(l) THEN l ELSE
              IF (e.op = "&&" /\ ~IsTrue(l.v)) \/ (e.op = "||" /\ IsTrue(l.v)) THEN R(Bool(IsTrue(l.v)), l.S, Ok)
@@ -320,10 +332,12 @@ RunPending(S, fuel) ==
     ELSE LET body == Head(S.pending)
              S1 == [S EXCEPT !.pending = Tail(S.pending), !.frames = << [vars |-> Put(Empty, "_this", ArrV(<<>>)), name |-> "", ns |-> "mission"] >>]
              r == Exec(body, 1, S1, NoVal)
-         IN RunPending(r.S, fuel - 1)
+         IN IF r.sig.k = "domain" THEN [r.S EXCEPT !.pending = <<>>, !.log = Append(r.S.log, "DOMAIN")]      \* outside the reference
+            ELSE RunPending(r.S, fuel - 1)
 
 \* a whole script: its top-level scope is a scope like any other
 Run(prog) == LET r == Exec(prog, 1, InitS, NoVal)
                  S2 == RunPending(r.S, 8)
-             IN [log |-> S2.log, value |-> Val(r.v), sig |-> r.sig.k]
+             IN [log |-> S2.log, value |-> Val(r.v),
+                 sig |-> IF r.sig.k = "domain" \/ (\E i \in 1..Len(S2.log) : S2.log[i] = "DOMAIN") THEN "domain" ELSE r.sig.k]
 =============================================================================
